@@ -1,5 +1,6 @@
 #include "type_utility_parser.h"
 #include "../../../common/debug.h"
+#include "../../../common/stack_guard.h"
 #include "../recursive_parser.h"
 #include <algorithm>
 #include <iostream>
@@ -72,6 +73,7 @@ std::string TypeUtilityParser::parseType() {
         parser_->error("Type is nested too deeply");
     }
     NestingGuard guard(nesting_depth_);
+    StackGuard::check();
 
     // CRITICAL FIX: Initialize parsed with default values to prevent stale data
     ParsedTypeInfo parsed =
